@@ -9,8 +9,12 @@ def prop_of(subject, files):
     f = ' '.join(files)
     if 'version_compare' in s: return 'C17'
     if 'condense_whitespace' in s: return 'C13'
+    if 'tok_eval dereferenced the null buffer' in s: return 'C05'
     if 'split' in s or 'num_words' in s or 'tok_eval' in s: return 'C12'
+    if 'url_dup' in s or 'url_unparse turned' in s: return 'C05'
     if 'url' in s and 'url.c' in f: return 'C14'
+    if 'mbuff_dup' in s: return 'C05'
+    if 'mbuff_done leaked' in s: return 'C06'
     if 'mbuff' in s: return 'C07'
     if 'spifmem' in s or 'mem.c' in f: return 'C15'
     if 'socket_comp' in s or 'set_program_name' in s or 'iterator()' in s or 'iterator comp' in s or 'item comp' in s: return 'C16'
@@ -27,6 +31,7 @@ def prop_of(subject, files):
     if 'dlinked_list insert dereferenced' in s: return 'C04'
     if 'array' in s or 'linked_list' in s or 'dlinked_list' in s: return 'C02'
     if 'str.c' in f or 'ustr.c' in f: return 'C01'
+    if 'obj.h' in f or 'obj.c' in f or 'tok.c' in f or 'regexp.c' in f or 'url.c' in f or ' dup' in s or '_dup' in s or '_comp' in s: return 'C05'
     return 'C??'
 log = subprocess.run(['git', '-C', '/repo', 'log', '--reverse', '--format=%h\t%s'], stdout=subprocess.PIPE).stdout.decode().strip().split('\n')
 fixed = []
